@@ -1,6 +1,6 @@
-\* thorough, exhaustive: 3 connections x 2 callers x 2 hooks, netpoll transport
+\* thorough, exhaustive: netpoll transport, 2 connections x 2 callers x hooks {any speed, beyond the deadline}
 CONSTANTS
-  Conns = {c1, c2, c3}
+  Conns = {c1, c2}
   Callers = {k1, k2}
   Hooks = {h1, h2}
   BeyondHooks = {h2}
